@@ -456,12 +456,12 @@ struct Fault { int fn = 0, k = 0, err = 0; };
 struct PCmd { int cmd = 0, ch = 0, outside = 0, flags = 0, fflags = 0, arg = 0; };
 struct ProcCase {
   int nch = 1;
-  int code[3] = {0, 0, 0}, by_signal[3] = {0, 0, 0}, not_child[3] = {0, 0, 0};
+  int code[3] = {0, 0, 0}, by_signal[3] = {0, 0, 0}, not_child[3] = {0, 0, 0}, dirty[3] = {0, 0, 0};
   std::vector<PCmd> cmds;
   std::vector<Fault> faults;
   std::string ser() const {
     Writer w;
-    w.i("nch", nch).iv("code", {code[0], code[1], code[2]}).iv("by_signal", {by_signal[0], by_signal[1], by_signal[2]}).iv("not_child", {not_child[0], not_child[1], not_child[2]}).i("ncmds", (long long)cmds.size());
+    w.i("nch", nch).iv("code", {code[0], code[1], code[2]}).iv("by_signal", {by_signal[0], by_signal[1], by_signal[2]}).iv("not_child", {not_child[0], not_child[1], not_child[2]}).iv("dirty", {dirty[0], dirty[1], dirty[2]}).i("ncmds", (long long)cmds.size());
     for (size_t i = 0; i < cmds.size(); i++) w.iv(("c" + std::to_string(i)).c_str(), {cmds[i].cmd, cmds[i].ch, cmds[i].outside, cmds[i].flags, cmds[i].fflags, cmds[i].arg});
     std::vector<long long> f;
     for (auto &x : faults) { f.push_back(x.fn); f.push_back(x.k); f.push_back(x.err); }
@@ -472,9 +472,9 @@ struct ProcCase {
     Reader r(t);
     ProcCase c;
     c.nch = (int)r.i("nch", 1);
-    auto k = r.iv("code"), b = r.iv("by_signal"), nc = r.iv("not_child");
-    k.resize(3, 0); b.resize(3, 0); nc.resize(3, 0);
-    for (int i = 0; i < 3; i++) { c.code[i] = (int)k[i]; c.by_signal[i] = (int)b[i]; c.not_child[i] = (int)nc[i]; }
+    auto k = r.iv("code"), b = r.iv("by_signal"), nc = r.iv("not_child"), dt = r.iv("dirty");
+    k.resize(3, 0); b.resize(3, 0); nc.resize(3, 0); dt.resize(3, 0);
+    for (int i = 0; i < 3; i++) { c.code[i] = (int)k[i]; c.by_signal[i] = (int)b[i]; c.not_child[i] = (int)nc[i]; c.dirty[i] = (int)dt[i]; }
     int n = (int)r.i("ncmds");
     for (int i = 0; i < n; i++) {
       auto v = r.iv(("c" + std::to_string(i)).c_str());
@@ -499,7 +499,7 @@ static Verdict run_proc(const ProcCase &c) {
   memset(&k, 0, sizeof k);
   int nch = std::max(1, std::min(c.nch, (int)C06C_MAX_CH));
   k.nch = (uint8_t)nch;
-  for (int i = 0; i < C06C_MAX_CH; i++) { k.exit_code[i] = (uint8_t)c.code[i]; k.by_signal[i] = (uint8_t)(c.by_signal[i] != 0); k.not_child[i] = (uint8_t)(c.not_child[i] != 0); }
+  for (int i = 0; i < C06C_MAX_CH; i++) { k.exit_code[i] = (uint8_t)c.code[i]; k.by_signal[i] = (uint8_t)(c.by_signal[i] != 0); k.not_child[i] = (uint8_t)(c.not_child[i] != 0); k.dirty[i] = (uint8_t)(c.dirty[i] != 0); }
   k.ncmds = (uint8_t)std::min<size_t>(c.cmds.size(), C06C_MAX_CMDS);
   k.plans.nfaults = (uint32_t)std::min<size_t>(c.faults.size(), TP_FAULT_MAX);
   for (uint32_t i = 0; i < k.plans.nfaults; i++) { k.plans.faults[i].fn = (uint8_t)c.faults[i].fn; k.plans.faults[i].k = (uint32_t)c.faults[i].k; k.plans.faults[i].err = c.faults[i].err; }
@@ -510,6 +510,7 @@ static Verdict run_proc(const ProcCase &c) {
   struct Exp { int cls = RC_NA; int rc = 0; int fires = 0; bool strong = false; const char *why = ""; };
   std::vector<Exp> ex(k.ncmds);
   int epoll_calls = 0, opens = 0;
+  for (int i = 0; i < nch; i++) if (c.dirty[i]) m[i].tpt_set = true;  // the record is already bound to the owner thread by its earlier use
   for (int i = 0; i < k.ncmds; i++) {
     const PCmd &cm = c.cmds[i];
     int ch = cm.ch % C06C_MAX_CH;
@@ -620,6 +621,7 @@ static Verdict run_proc(const ProcCase &c) {
     PBT_REQUIRE(o.pidfd_opens == (uint32_t)(opens + opens_dyn), "process descriptors opened: " << o.pidfd_opens << ", the history needs " << opens + opens_dyn);
     PBT_REQUIRE(o.res.live_fds == o.pre_live_fds, "descriptors left after deleting every registration and destroying the pool: " << o.res.live_fds << " (before: " << o.pre_live_fds << ")");
     if (fired_total) nt = true;
+    for (int j = 0; j < nch; j++) if (c.dirty[j]) label("proc_record_with_stale_read_state");
     if (nt) nontrivial_cur();
     return Verdict::pass();
   }
@@ -633,6 +635,7 @@ static rc::Gen<ProcCase> genProc() {
     for (int i = 0; i < 3; i++) {
       c.code[i] = *rc::gen::element(0, 1, 7, 42, 255);
       c.by_signal[i] = *rc::gen::weightedElement<int>({{4, 0}, {1, 1}});
+      c.dirty[i] = *rc::gen::weightedElement<int>({{3, 0}, {1, 1}});  // the record was used for a (now dead, disabled) read event before
       c.not_child[i] = *rc::gen::weightedElement<int>({{3, 0}, {1, 1}});  // a grandchild re-parented away: pidfd_open accepts any visible process
     }
     int n = *range<int>(2, 9);
@@ -649,6 +652,110 @@ static rc::Gen<ProcCase> genProc() {
     bool any_not_child = false;
     for (int i = 0; i < c.nch; i++) any_not_child |= c.not_child[i] != 0;
     if (!any_not_child && *range<int>(0, 7) == 0) c.faults.push_back(Fault{F_EPOLL_CTL, *range<int>(1, 3), *rc::gen::element<int>(ENOMEM, ENOSPC)});
+    return c;
+  });
+}
+
+// ---------------------------------------------------------------- (k) a sibling's callback removes a registration that is ready too
+struct KillCase {
+  int nch = 2, busy_ms = 5;
+  int kind[C06K_MAX_CH] = {1, 1, 1, 1, 1, 1}, flags[C06K_MAX_CH] = {0, 0, 0, 0, 0, 0}, period[C06K_MAX_CH] = {1, 1, 1, 1, 1, 1};
+  int kills[C06K_MAX_CH] = {0, 0, 0, 0, 0, 0}, kill_op[C06K_MAX_CH] = {0, 0, 0, 0, 0, 0};
+  Bytes plan;
+  static std::vector<long long> v6(const int *a) { return std::vector<long long>(a, a + C06K_MAX_CH); }
+  std::string ser() const {
+    Writer w;
+    w.i("nch", nch).i("busy_ms", busy_ms).iv("kind", v6(kind)).iv("flags", v6(flags)).iv("period", v6(period)).iv("kills", v6(kills)).iv("kill_op", v6(kill_op)).b("plan", plan);
+    return w.str();
+  }
+  static KillCase parse(const std::string &t) {
+    Reader r(t);
+    KillCase c;
+    c.nch = (int)r.i("nch", 2); c.busy_ms = (int)r.i("busy_ms", 5);
+    auto get = [&](const char *n, int *dst, int def) { auto v = r.iv(n); v.resize(C06K_MAX_CH, def); for (int i = 0; i < C06K_MAX_CH; i++) dst[i] = (int)v[i]; };
+    get("kind", c.kind, 1); get("flags", c.flags, 0); get("period", c.period, 1); get("kills", c.kills, 0); get("kill_op", c.kill_op, 0);
+    c.plan = r.b("plan");
+    return c;
+  }
+};
+void showValue(const KillCase &c, std::ostream &os) { os << c.ser(); }
+
+static Verdict run_kill(const KillCase &c) {
+  c06k_case k;
+  memset(&k, 0, sizeof k);
+  int nch = std::max(2, std::min(c.nch, (int)C06K_MAX_CH));
+  k.nch = (uint8_t)nch;
+  k.busy_ms = (uint8_t)std::max(1, std::min(c.busy_ms, 30));
+  for (int i = 0; i < C06K_MAX_CH; i++) {
+    int kd = (c.kind[i] >= 1 && c.kind[i] <= 3) ? c.kind[i] : 1;
+    k.kind[i] = (uint8_t)kd;
+    k.flags[i] = (uint16_t)(c.flags[i] == (int)F_ONESHOT || c.flags[i] == (int)F_DISPATCH ? c.flags[i] : 0);
+    k.period_ms[i] = (uint8_t)std::max(1, std::min(c.period[i], 3));
+    k.kills[i] = (uint8_t)(c.kills[i] & ((1 << nch) - 1) & ~(1 << i));
+    k.kill_op[i] = (uint8_t)(c.kill_op[i] != 0);
+  }
+  k.plans.plan_len = (uint32_t)std::min<size_t>(c.plan.size(), TP_PLAN_MAX);
+  memcpy(k.plans.plan, c.plan.data(), k.plans.plan_len);
+  Verdict v = Verdict::pass();
+  for (int attempt = 0; attempt < 3; attempt++) {
+    std::unique_ptr<c06k_out> op(new c06k_out());
+    c06k_out &o = *op;
+    alarm(300);
+    c06k_run(&k, &o);
+    alarm(0);
+    PBT_REQUIRE(o.setup_rc == 0, "harness: setup failed " << o.setup_rc);
+    if (o.hang) { v = Verdict::fail("hang: the owning thread stopped serving its queue"); label("hang_rerun"); continue; }
+    if (o.never_fired) {
+      std::ostringstream m;
+      m << "registration(s) with mask " << o.never_fired << " were added successfully, made ready, never removed - and never reported";
+      v = Verdict::fail(m.str());
+      label("never_fired_rerun");
+      continue;  // reported only if it happens in 3 of 3 runs
+    }
+    PBT_REQUIRE(!o.wrong_thread, "a callback ran on a thread other than the owner");
+    int removed_at[C06K_MAX_CH], fired[C06K_MAX_CH] = {0, 0, 0, 0, 0, 0};
+    for (int i = 0; i < C06K_MAX_CH; i++) removed_at[i] = -1;
+    bool removed_ready = false;
+    int first_cb = -1;
+    for (uint32_t i = 0; i < o.nlog; i++) {
+      const c06k_rec &r = o.log[i];
+      int ch = r.ch % C06K_MAX_CH;
+      static const int evk[4] = {0, EV_READ, EV_WRITE, EV_TIMER};
+      if (r.type == 3) { PBT_REQUIRE(r.rc == 0, "add of channel " << ch << " failed with " << r.rc); continue; }
+      if (r.type == 2) {
+        if (r.rc == 0 && removed_at[ch] < 0) { removed_at[ch] = (int)i; if (!fired[ch]) removed_ready = true; }
+        continue;
+      }
+      if (first_cb < 0) first_cb = ch;
+      PBT_REQUIRE(removed_at[ch] < 0, "channel " << ch << " (" << (k.kind[ch] == 3 ? "timer" : k.kind[ch] == 2 ? "write" : "read") << ", flags " << k.flags[ch] << "): callback ran (log index " << i
+                                          << ") after its " << "registration was " << "removed on the owning thread with return 0 (log index " << removed_at[ch] << ", by the callback of a sibling that was ready at the same time)");
+      PBT_REQUIRE(r.event == evk[k.kind[ch]], "channel " << ch << ": callback carried event kind " << (int)r.event << ", registered " << evk[k.kind[ch]]);
+      fired[ch]++;
+      if (k.flags[ch] && k.kind[ch] != 3) PBT_REQUIRE(fired[ch] <= 1, "channel " << ch << ": one-shot / dispatch registration reported " << fired[ch] << " times");
+    }
+    PBT_REQUIRE(o.res.live_fds == o.pre_live_fds, "descriptors left after the pool was destroyed: " << o.res.live_fds << " (before: " << o.pre_live_fds << ")");
+    if (o.log_overflow) label("kill_log_full");
+    if (removed_ready) { label("kill_removed_before_its_first_report"); nontrivial_cur(); }
+    for (int i = 0; i < nch; i++) if (removed_at[i] >= 0) { label(k.kill_op[first_cb >= 0 ? first_cb : 0] ? "kill_seen_disable" : "kill_seen_delete"); break; }
+    return Verdict::pass();
+  }
+  return v;
+}
+
+static rc::Gen<KillCase> genKill() {
+  return rc::gen::exec([]() {
+    KillCase c;
+    c.nch = *rc::gen::weightedElement<int>({{3, 2}, {3, 3}, {2, 4}, {1, 6}});
+    c.busy_ms = *rc::gen::element(2, 5, 10);
+    int op_all = *rc::gen::weightedElement<int>({{3, 0}, {1, 1}, {1, 2}});  // everybody deletes / disables / mixed
+    for (int i = 0; i < C06K_MAX_CH; i++) {
+      c.kind[i] = *rc::gen::weightedElement<int>({{3, 1}, {1, 2}, {2, 3}});
+      c.flags[i] = *rc::gen::weightedElement<int>({{2, 0}, {1, (int)F_ONESHOT}, {1, (int)F_DISPATCH}});
+      c.period[i] = *range<int>(1, 3);
+      c.kills[i] = *rc::gen::weightedElement<int>({{1, 0}, {3, 63}, {2, *range<int>(0, 63)}});
+      c.kill_op[i] = op_all == 2 ? *range<int>(0, 1) : op_all;
+    }
+    c.plan = *bytes_upto(8);
     return c;
   });
 }
@@ -676,6 +783,7 @@ int main(int argc, char **argv) {
   add_enum_check("ev_timer_unit_table", 100, unit_table, [](const std::string &t) { return run_prog(ProgCase::parse(t)); });
   add_check<FireCase>("ev_fire", 160, 100, genFire, run_fire);
   add_check<ProcCase>("ev_proc", 250, 100, genProc, run_proc);
+  add_check<KillCase>("ev_sibling_removal", 400, 100, genKill, run_kill);
   disable_shrinking("ev_fire");  // a failing history costs up to 3 x ceiling to re-run; histories are short (<= 14 commands)
   return driver_main(argc, argv);
 }
